@@ -51,6 +51,10 @@ def parse_contracts(path):
                 sec = {"kind": d, "text": []}; cur.append(sec)
             elif d == "loop":
                 sec = {"kind": "loop", "n": int(rest), "text": []}; cur.append(sec)
+            elif d == "nested":
+                sec = {"kind": "nested", "name": rest, "text": []}; cur.append(sec)
+            elif d == "nestedbody":
+                sec = {"kind": "nestedbody", "name": rest, "text": []}; cur.append(sec)
             elif d in ("before", "after", "closure"):
                 n, anchor = rest.split(None, 1)
                 sec = {"kind": d, "n": int(n), "anchor": anchor, "text": []}; cur.append(sec)
@@ -95,7 +99,7 @@ def _check_region(kind, text):
         ok = first in ("requires", "ensures", "decreases", "returns", "no_unwind")
     elif kind == "loop":
         ok = first in ("invariant", "invariant_except_break", "ensures", "decreases")
-    elif kind == "closure":
+    elif kind in ("closure", "nested"):
         ok = first in ("requires", "ensures")
     elif kind == "attr":
         ok = first == "#"
@@ -246,6 +250,13 @@ def extract(repo, spec, contracts, mode, mutate=None):
             ins.append((bo, order, text))
         elif s["kind"] == "bodystart":
             ins.append((bo + 1, order, text))
+        elif s["kind"] in ("nested", "nestedbody"):
+            k = next((i for i in range(bo + 1, len(body) - 1) if body[i].text == "fn" and body[i+1].text == s["name"]), None)
+            if k is None: raise UnitError(f"lost anchor: {ex.id} has no nested fn {s['name']}")
+            j = k + 1
+            while body[j].text != "{":
+                j = match_close(body, j) + 1 if body[j].text in OPEN else j + 1
+            ins.append((j if s["kind"] == "nested" else j + 1, order, text))
         elif s["kind"] == "loop":
             ls = _loops(body, bo + 1, len(body))
             if s["n"] > len(ls): raise UnitError(f"lost anchor: {ex.id} has no loop #{s['n']}")
